@@ -839,6 +839,11 @@ func (c *clusterClient) doresultfn(
 				for ei = i; ei < len(commands) && !isMulti(commands[ei]) && !isExec(commands[ei]); ei++ {
 				}
 				if mi >= 0 && ei < len(commands) && isMulti(commands[mi]) && isExec(commands[ei]) && resps[mi].val.string() == ok { // a transaction is found.
+					if mode == RedirectRetry && !allRetryable(commands[mi+1:ei]) {
+						// The block would be re-sent whole because one of its members may be retried, but the server may
+						// already have executed it (the connection failed after EXEC): its other members must not run twice.
+						continue
+					}
 					mu.Lock()
 					retries.Redirects++
 					nr := retries.m[nc]
